@@ -95,10 +95,14 @@ DROPPING = {
     "VecDeque": ("retain", "retain_mut", "truncate", "pop_front", "pop_back", "drain", "clear", "swap_remove_back", "swap_remove_front",
                  "remove", "split_off"),
     "Iterator": ("filter", "filter_map", "take", "skip", "step_by", "take_while", "skip_while", "map_while", "find", "find_map", "nth",
-                 "last", "zip", "min", "max", "min_by", "max_by", "min_by_key", "max_by_key", "reduce", "position", "scan"),
+                 "last", "zip", "min", "max", "min_by", "max_by", "min_by_key", "max_by_key", "reduce", "position", "scan",
+                 # consumers that stop at the first decisive item: whatever follows it is never pulled (and never inserted)
+                 "any", "all", "try_for_each", "try_fold", "rposition", "try_reduce", "try_find"),
     "ParallelIterator": ("filter", "filter_map", "take_any", "skip_any", "take_any_while", "skip_any_while", "find_any", "find_first",
                          "find_last", "find_map_any", "find_map_first", "find_map_last", "while_some", "reduce", "reduce_with",
-                         "min", "max", "min_by", "max_by", "min_by_key", "max_by_key"),
+                         "min", "max", "min_by", "max_by", "min_by_key", "max_by_key",
+                         "any", "all", "try_for_each", "try_for_each_with", "try_for_each_init", "try_fold", "try_fold_with", "try_reduce",
+                         "try_reduce_with", "panic_fuse"),
     "IndexedParallelIterator": ("take", "skip", "step_by", "zip", "interleave_shortest", "position_any", "position_first", "positions"),
 }
 
